@@ -64,8 +64,16 @@ type Config struct {
 	Cleanup func()
 	// ClockCost is the deviation cost of letting a timer fire while threads are enabled (default 1).
 	ClockCost int
+	// ClockSlack: a pending timer may fire while threads are enabled only if it is due within
+	// this much virtual time (default 1ms).
+	ClockSlack time.Duration
 	// NoClockPreempt disables firing timers while threads are enabled.
 	NoClockPreempt bool
+	// FreeBlockedSwitch makes the choice of the next thread free when the running thread is
+	// blocked or finished (classic preemption bounding: only preemptions are counted). Only
+	// affordable for small programs; the default (delay bounding) counts every departure from
+	// the deterministic default schedule.
+	FreeBlockedSwitch bool
 	// SelectCost is the deviation cost of a non-source-order select probe order (default 1).
 	SelectCost int
 }
@@ -456,6 +464,9 @@ func Run(x *mc.Exec, cfg Config, mainFn func()) (res Result) {
 	if cfg.ClockCost == 0 {
 		cfg.ClockCost = 1
 	}
+	if cfg.ClockSlack == 0 {
+		cfg.ClockSlack = time.Millisecond
+	}
 	if cfg.SelectCost == 0 {
 		cfg.SelectCost = 1
 	}
@@ -517,15 +528,24 @@ func Run(x *mc.Exec, cfg Config, mainFn func()) (res Result) {
 		}
 		s.steps++
 		n := len(enabled)
-		if clock && !cfg.NoClockPreempt {
+		// A timer may fire "between" steps of runnable threads only when it is due within
+		// ClockSlack of virtual now: runnable threads are urgent, virtual time cannot run far
+		// ahead of them (a runnable goroutine is not delayed for a noticeable fraction of a second).
+		if clock && !cfg.NoClockPreempt && s.nextTimerInLocked() <= int64(cfg.ClockSlack) {
 			n++
+		} else {
+			clock = false
 		}
+		_ = clock
 		s.mu.Unlock()
 		k := 0
 		if n > 1 {
-			cost := 0
-			if lastEnabled {
-				cost = 1
+			// Delay bounding: the default is "continue the running thread, else the lowest id";
+			// every departure costs one deviation. With FreeBlockedSwitch (preemption bounding)
+			// a switch is free when the running thread cannot continue anyway.
+			cost := 1
+			if cfg.FreeBlockedSwitch && !lastEnabled {
+				cost = 0
 			}
 			k = x.ChooseCost(n, cost, "sched")
 		}
